@@ -576,10 +576,25 @@ func runScenario(t *rapid.T, sc *scenario) string {
 		}
 	}
 	argv = append(argv, sc.tail...)
-	if err := fs.Parse(argv); err != nil {
-		return fmt.Sprintf("Parse(%q) = %v, want nil", argv, err)
+	helpMentioned := false
+	for _, a := range argv {
+		if h := strings.TrimLeft(a, "-"); h == "help" || strings.HasPrefix(h, "help=") {
+			helpMentioned = true
+		}
 	}
-	if fs.ShowUsage() != wantUsage {
+	if !helpMentioned && rapid.IntRange(0, 2).Draw(t, "throughFromCommandLine") == 0 {
+		// the entry point a program uses: the command line is os.Args (without -help: that one prints and exits)
+		old := os.Args
+		os.Args = append([]string{"prog"}, argv...)
+		_, err := config.FromCommandLine(ptr.Interface())
+		os.Args = old
+		if err != nil {
+			return fmt.Sprintf("FromCommandLine() with os.Args[1:]=%q returned %v, want nil", argv, err)
+		}
+		ev.Label("gen:through_FromCommandLine")
+	} else if err := fs.Parse(argv); err != nil {
+		return fmt.Sprintf("Parse(%q) = %v, want nil", argv, err)
+	} else if fs.ShowUsage() != wantUsage {
 		return fmt.Sprintf("ShowUsage() = %v after Parse(%q), want %v (the last -help on the command line decides)", fs.ShowUsage(), argv, wantUsage)
 	}
 	for _, f := range sc.fields {
